@@ -9,7 +9,7 @@ import mir, inv, scopes, common
 F = mir.load("default")
 sc = set()
 for n in ("C04", "C13", "C12", "C19"):
-    sc |= scopes.scope(F, getattr(scopes, n + "_ENTRIES"))
+    sc |= scopes.scope(F, getattr(scopes, n + "_ENTRIES"), with_fmt=(n in ("C04", "C13")))
 ctx = common.Ctx("TABLE", "quick", 0)
 sites, stats = inv.inventory(ctx, F, sc, {})
 p = os.path.join(mir.V, "tables", "inventory.json")
